@@ -3,6 +3,7 @@ package goat
 import (
 	"context"
 	"fmt"
+	"math"
 	"reflect"
 	"strconv"
 	"strings"
@@ -643,8 +644,16 @@ func parseGrpcTimeout(timeout string) (time.Duration, bool) {
 	}
 	suffix := timeout[len(timeout)-1]
 
-	val, err := strconv.ParseInt(timeout[:len(timeout)-1], 10, 64)
-	if err != nil {
+	digits := timeout[:len(timeout)-1]
+	for i := 0; i < len(digits); i++ {
+		if digits[i] < '0' || digits[i] > '9' {
+			return 0, false // signs included
+		}
+	}
+	// Only digits: the sole possible error is a value out of range, which is
+	// certainly too large for a Duration and saturates below.
+	val, err := strconv.ParseUint(digits, 10, 64)
+	if err != nil && !errors.Is(err, strconv.ErrRange) {
 		return 0, false
 	}
 	getUnit := func(suffix byte) time.Duration {
@@ -670,6 +679,10 @@ func parseGrpcTimeout(timeout string) (time.Duration, bool) {
 		return 0, false
 	}
 
+	// Saturate instead of wrapping around to a short or negative timeout.
+	if val > uint64(math.MaxInt64/int64(unit)) {
+		return time.Duration(math.MaxInt64), true
+	}
 	return time.Duration(val) * unit, true
 }
 
